@@ -135,13 +135,46 @@ class BuildFailed(Exception):
 _loaded = {}
 
 
+# Where the checks expect the crate's own types to live.  The module a type is defined in is a private detail (the public ones are re-exported from the crate
+# root): when a type of this name is found under another module path, every occurrence of that path in the facts is rewritten to the expected one, so that
+# moving e.g. NodeStamp into a module of its own changes nothing for the analyses.
+CANONICAL_HOMES = {
+    "NodeId": "crate::id", "NodeStamp": "crate::id", "Node": "crate::node", "NodeData": "crate::node", "Arena": "crate::arena", "NodeError": "crate::error",
+    "ConsistencyError": "crate::error", "SiblingsRange": "crate::siblings_range", "DetachedSiblingsRange": "crate::siblings_range",
+    "NodeEdge": "crate::traverse", "Traverse": "crate::traverse", "ReverseTraverse": "crate::traverse", "Descendants": "crate::traverse", "Ancestors": "crate::traverse",
+    "Predecessors": "crate::traverse", "Children": "crate::traverse", "ReverseChildren": "crate::traverse", "PrecedingSiblings": "crate::traverse",
+    "FollowingSiblings": "crate::traverse", "DebugPrettyPrint": "crate::debug_pretty_print",
+}
+
+
+def _canonicalise_paths(text):
+    """Rewrite the definition paths of the crate's known types to their expected homes (see CANONICAL_HOMES)."""
+    import re
+    moved = {}
+    for m in re.finditer(r'"path":\s*"(crate(?:::\w+)*)::(\w+)",\s*"kind":\s*"(?:struct|enum)"', text):
+        mod, name = m.group(1), m.group(2)
+        home = CANONICAL_HOMES.get(name)
+        if home and mod != home:
+            moved[mod + "::" + name] = home + "::" + name
+    if len(set(moved.values())) != len(moved):
+        return text, {}
+    for old, new in sorted(moved.items(), key=lambda kv: -len(kv[0])):
+        text = re.sub(re.escape(old) + r"(?![A-Za-z0-9_])", new, text)
+    return text, moved
+
+
 def load(profile="dev", features=None, crate="indextree", repo=None):
     d, info = export(profile, features, repo)
     p = os.path.join(d, crate + ".json")
     k = (p,)
     if k not in _loaded:
         with open(p) as fh:
-            _loaded[k] = Program(json.load(fh), info)
+            text = fh.read()
+        moved = {}
+        if crate == "indextree":
+            text, moved = _canonicalise_paths(text)
+        info = dict(info, moved_types=moved) if moved else info
+        _loaded[k] = Program(json.loads(text), info)
     return _loaded[k]
 
 
